@@ -52,6 +52,8 @@ impl Run {
         file.write_all(&data)?;
         file.sync_all()?;
         drop(file);
+        #[cfg(pnordahl_monorail_verif)]
+        crate::verif::point("tracking.run.tmp.written");
         fs::rename(&tmp_path, &self.path)?;
         #[cfg(pnordahl_monorail_verif)]
         crate::verif::point("tracking.run.written");
